@@ -140,6 +140,7 @@ let run (id : string) (hdr : string list) (lines : string list list) (out : stri
       | ["r"; "merge"; k; v] :: r -> let (n', x) = step_repl !n (RMergeE (bytes_of_token k, bytes_of_token v)) in n := n'; pr ("A " ^ res_str x); go r
       | ["r"; "bad"; _; _] :: r -> let (n', x) = step_repl !n RBadE in n := n'; pr ("A " ^ res_str x); go r
       | ["r"; "sync"] :: r -> let (n', x) = step_repl !n RSync in n := n'; pr ("A " ^ res_str x); go r
+      | ["stopmgr"] :: r -> pr "M stopped"; go r   (* the role and the read-only mode stay what they were *)
       | ["dump"] :: r -> pr ("D ro=" ^ b01 !n.ro); scan_lines (); go r
       | l :: _ -> failwith ("C16: bad line: " ^ Stdlib.String.concat " " l) in
     go lines
